@@ -147,7 +147,9 @@ Definition trav_bits (out : N -> list N) (n : N) (root : N) (pre : list N) : Z :
 
 Definition trav_one (out : N -> list N) (n : N) (fuel : nat) (o : trav_obs) : Z * option Z :=
   if (t_root o <? 0) || (Z.of_N n <=? t_root o) then
-    (32, if t_status o =? 2 then None else Some 0)
+    (* the call panics: status 2 and nothing else was observed (all seven lists empty) *)
+    (32, if (t_status o =? 2) && (length (t_pre o ++ t_post o ++ t_rev o ++ t_rva o ++ t_eul o ++ t_ent o ++ t_ext o) =? 0)%nat
+         then None else Some 0)
   else
     let r := Z.to_N (t_root o) in
     (* preorder / postorder are, by definition, the node projections of run_visit true false /
@@ -244,6 +246,7 @@ Definition check_scc : parser (list Z) :=
               | None => false
               end;
               (hascof =? (if flags =? 0 then 0 else 1));
+              negb (hascof =? 0) || (length cof =? 0)%nat;      (* no SubnodeComponent list without a flag *)
               (hascof =? 0) || ((length cof =? length g)%nat &&
                  match cm_build (g_n g) compsN 0%N (PositiveMap.empty N) with Some m => cof_match m cof 0%N | None => false end);
               (length outs =? length comps)%nat;
@@ -349,7 +352,8 @@ Definition check_simplify : parser (list Z) :=
           match (if weighted =? 0 then Some (unit_weights g) else zipwg g ws), zipwg rg rws with
           | Some wg, Some obs =>
               let r := simplify_multi wg in
-              let w := first_false [ status =? 0; (length obs =? length g)%nat; wgraph_eqb r obs; pure =? 1; graph_eqb g g' ] in
+              let w := first_false [ status =? 0; (length obs =? length g)%nat; wgraph_eqb r obs; pure =? 1; graph_eqb g g';
+                                     negb (weighted =? 0) || (length ws =? 0)%nat ] in
               match w with
               | None => verdict V_OK (mk_tag 6 (simp_bits g weighted r)) (-1) []
               | Some k => verdict V_MISMATCH (mk_tag 6 (Z.lor (simp_bits g weighted r) 128)) k [6; k]
@@ -381,7 +385,7 @@ Fixpoint sg_eqb (s : subgraph) (obs : list sg_obs) : bool :=
 (* compare an expected result (None = panic) with the observation *)
 Definition sg_verdict (op : Z) (bits : Z) (expected : option subgraph) (status : Z) (obs : list sg_obs) (pure : Z) (args_same : bool) : list Z :=
   let w := match expected with
-           | None => first_false [ status =? 2; pure =? 1; args_same ]
+           | None => first_false [ status =? 2; pure =? 1; args_same; (length obs =? 0)%nat ]
            | Some s => first_false [ status =? 0; sg_eqb s obs; pure =? 1; args_same ]
            end in
   match w with
@@ -498,7 +502,7 @@ Definition check_sprint : parser (list Z) :=
                      (Z.lor (if (0 <? length (concat g))%nat then 32 else 0)
                             (if (haslabel =? 0) && (hasn =? 0) && (hase =? 0) then 64 else 0)))))) in
           let w := match expected with
-                   | None => first_false [ status =? 2; pure =? 1; graph_eqb g g' ]
+                   | None => first_false [ status =? 2; pure =? 1; graph_eqb g g'; (length obs =? 0)%nat ]
                    | Some b => first_false [ status =? 0; obytes_eqb expected obs; pure =? 1; graph_eqb g g' ]
                    end in
           match w with
